@@ -19,10 +19,10 @@ impl Checker for C05 {
         // only the space-related part of the result oracle belongs to this property
         v.retain(|(sig, _)| sig.contains("NotEnoughSpace") || sig.contains("partial-"));
         v.extend(o::o_free_space("C05", ops, ex));
-        // a transient storage fault while the volume is being unmounted: the next session must still report
+        // a transient storage fault while the volume is being unmounted (explicitly, or implicitly by dropping it): the next session must still report
         // the number of free entries of the FAT (the library may have failed to store the count, but then it must
         // not trust it)
-        if matches!(ops.last(), Some(Op::Remount)) && ex.panic.is_none() && v.is_empty() && ex.calls_last <= 3000 {
+        if matches!(ops.last(), Some(Op::Remount | Op::DropRemount)) && ex.panic.is_none() && v.is_empty() && ex.calls_last <= 3000 {
             for k in 1..=ex.calls_last {
                 let plan = harness::sess::Plan { fault: Some((k, 0x00F5_0000 + k as u32)), ..Default::default() };
                 let fx = sess::run(cfg, ops, &plan);
@@ -84,6 +84,8 @@ pub fn alphabet(cs: u32) -> Vec<Op> {
         Op::DropFile { h: 1 },
         Op::Stats,
         Op::Remount,
+        // implicit unmount: the file system object is simply dropped
+        Op::DropRemount,
     ]
 }
 
@@ -140,7 +142,28 @@ pub fn specs(tier: &str) -> Vec<ExpSpec> {
             for (n, f, h) in variants {
                 v.push(ExpSpec::new(patched(&cfg, n, f, h), alphabet(512), if th { 6 } else { 4 }));
             }
+            // marked dirty (the previous session was not unmounted) with an in-range but wrong count in the
+            // information sector: the count must not be trusted
+            {
+                let mut c = patched(&cfg, "dirty-wrongcount", Some(5), None);
+                let Base::Bytes(img) = &*c.base else { unreachable!() };
+                let mut img = img.clone();
+                vol::set_status(&mut img, 1);
+                c.base = Arc::new(Base::Bytes(img));
+                v.push(ExpSpec::new(c, alphabet(512), if th { 5 } else { 3 }));
+            }
         }
+    }
+    // volumes made by the independent builder (a foreign formatter): FAT padding entries are zero, so a scan that
+    // runs one entry too far finds a "free" cluster behind the last one; four free clusters, the last one included
+    for w in [12u8, 16, 32] {
+        let c = crate::c10::mk(w, 2, 0, 0, 4, &format!("m{w}-zeropad-f4"));
+        v.push(ExpSpec::new(c, alphabet(512), if th { 5 } else { 4 }));
+    }
+    // FAT32 whose entries all carry reserved top bits (0xA), free count unknown: the recount has to mask them
+    {
+        let c = crate::c10::mk(32, 2, 0, 0xA, 7, "m32-nibA");
+        v.push(ExpSpec::new(patched(&c, "nofree", Some(0xFFFF_FFFF), None), alphabet(512), if th { 4 } else { 3 }));
     }
     v
 }
